@@ -114,6 +114,9 @@ type raceScenario struct {
 	deep bool
 }
 
+// shallowScenarios: long executions, searched with one deviation fewer than the others
+var shallowScenarios = map[string]bool{}
+
 // raceScenarios: concurrent use the API permits, each with a default-schedule
 // set-up and a marked exploration phase.
 func raceScenarios() []raceScenario {
@@ -648,6 +651,16 @@ func raceScenarios() []raceScenario {
 		})
 		vsched.Quiesce()
 	}, true})
+	// the sender stuck with a small chunk while the ring fills behind it and a larger message
+	// waits for room (bodies shared with C17): the producer must not write into bytes the
+	// sender is still putting on the wire
+	for _, sc := range smallChunkCases(false) {
+		if sc.small != 700 || sc.fill != (16384-(sc.small+20))/1012 || len(sc.pre) == 1 || len(sc.pre) == 3 {
+			continue // two of the ring positions: ring start, second lap
+		}
+		shallowScenarios["outgoing ring: "+sc.name] = true
+		out = append(out, raceScenario{"outgoing ring: " + sc.name, smallChunkBody(sc.pre, sc.small, sc.fill, sc.bigMsg), false})
+	}
 	return out
 }
 
@@ -705,6 +718,9 @@ func C18(c *core.Ctx) {
 		dev := dev
 		if sc.deep && dev < 2 {
 			dev = 2 // small scenarios are searched one deviation deeper already in the quick tier
+		}
+		if shallowScenarios[sc.name] && dev > 1 {
+			dev--
 		}
 		st := c.RunSchedRace(explore.SchedOpts{Name: sc.name, Bound: -1, DevBound: dev, Cache: true, UseMark: true, Body: sc.body, MaxPoints: 100000, Check: check, Shard: c.Shard, NShards: c.NShards},
 			func(v *explore.Violation) (string, string) {
